@@ -16,7 +16,9 @@ EXPLANATION = (
     "first-element seed; (3) label opacity: an action label is only stored, type-tested, compared for equality with "
     "another label or tested for membership in a strategy list - never compared with a literal, ordered or sliced; "
     "(4) index opacity: a successor index is only used to subscript the per-state list, in ==/in tests, stored, or "
-    "range-checked by the validation - never ordered or used arithmetically in a kernel or pruning function.")
+    "range-checked by the validation - never ordered or used arithmetically in a kernel or pruning function; "
+    "(pre:C01.4, C02.3) both sweeps leave their loop only through the residual test - the number of sweeps depends on the numbering, so any "
+    "other exit (budget, stall counter) makes solvability depend on it; (pre:C10.2) the relation compares two solves, so no state may survive from one solve to the next.")
 ASSUMPTIONS = ["ties between successors are excluded by the property's domain for the auxiliary diagnostics (ARG picks one maximiser)"]
 TECHNIQUE = "fold classification of every successor-list consumer + opacity scan over symbolic terms (ast)"
 
@@ -260,5 +262,15 @@ def run(ctx, chk):
     shared.rule_node_keeps_transitions(ctx, chk, "C13.pre:C01.2")
     r34_opacity(ctx, chk)
     r5_pruning_order(ctx, chk)
+    from . import C01, C10
+    # "within convergence tolerance" and "never changes whether the game is declared solvable" presume that each sweep runs until
+    # its residual is below the threshold and leaves its loop in no other way: how many sweeps that takes depends on the numbering
+    # (the in-place update propagates one state per sweep against the numbering, all of them along it), so a second exit - a sweep
+    # budget, a no-progress counter that raises - decides differently for two presentations of one game
+    C01.r4_sweep(ctx, chk, "C13.pre:C01.4")
+    C02.r3_sweep(ctx, chk, "C13.pre:C02.3")
+    # the relation is between two solves: it presumes each solve is a function of its own game - state kept from the solve of the
+    # first presentation (a cache keyed by less than what the strategies mention) leaks its labels into the second
+    C10.r2_no_carried_state(ctx, chk, "C13.pre:C10.2")
     chk.require_instances("C13.1", 20)
     chk.require_instances("C13.2", 10)
